@@ -4,8 +4,15 @@
 // and does not depend on the order / batching of the changes nor on whether the breakdown is requested.
 use super::*;
 
-fn comps(p: &str) -> Vec<&str> { p.split('/').filter(|s| !s.is_empty()).collect() }
-fn pp(prefix: &str, path: &str) -> bool { let (a, b) = (comps(prefix), comps(path)); a.len() <= b.len() && a.iter().zip(b.iter()).all(|(x, y)| x == y) }
+// whole-component prefix as defined in DESIGN.md section 5 (pp), written independently of the code under test over component
+// lists: a prefix written with a trailing slash names a directory and matches itself and what is below it, not the bare name
+fn pp(prefix: &str, path: &str) -> bool {
+    let a: Vec<&str> = prefix.split('/').collect();
+    let b: Vec<&str> = path.split('/').collect();
+    let dir = a.last() == Some(&"") && a.len() > 1;
+    let a2: Vec<&str> = if dir { a[..a.len() - 1].to_vec() } else { a.clone() };
+    a2.len() <= b.len() && a2.iter().zip(b.iter()).all(|(x, y)| x == y) && (!dir || b.len() > a2.len())
+}
 
 struct T { path: &'static str, uses: Vec<&'static str>, ignores: Vec<&'static str> }
 
